@@ -8,6 +8,8 @@ Signer API conformance: each shipped signer signs the token AS a SHA-1 digest wi
 Prehashed(SHA1) + PKCS1v15; python-rsa: a pass-through "hash" registered with SHA-1's ASN.1 prefix; pycryptodome: a
 carrier object with OID 1.3.14.3.2.26 whose digest is the token) and passes the token unmodified.
 Not decided: the arithmetic inside the crypto libraries.
+keygen / write_public_keyfile write both files on every normal path and no handler swallows a failed write; every Python-3 return of _to_bytes is
+int.to_bytes(length, order); a signer method with a path that returns no value is a violation.
 """
 import ast
 
